@@ -60,6 +60,7 @@ def main(argv):
 
     tier, shard, K, seed, out = argv[2], int(argv[3]), int(argv[4]), \
         int(argv[5]), argv[6]
+    os.environ['PWV_NSHARDS'] = str(K)
     deadline = t0 + float(os.environ.get(
         'PWV_DEADLINE_S', '900' if tier == 'quick' else '14400'))
     kf_status = {}
